@@ -175,7 +175,7 @@ SRC_TIE = {
     "C08": " Source-text tie (C08Src): Sequence.phasePlotRegion translated from the live source equals regionCode for all rational arguments.",
     "C09": " Source-text tie (C09Src): __verify_pH translated from the live source rejects exactly pH < 0 or pH > 14.",
     "C10": " Source-text tie (C10Src): the integer bookkeeping (nblobs, flank, flank_start, flank_end) at the head of each of the SIX sliding-window functions, translated from the live source, equals the model's flanks / window count for every legal window - each copy separately.",
-    "C13": " Source-text tie (C13Src): __check_window_to_length translated from the live source raises exactly when the window exceeds the length.",
+    "C13": " Source-text tie (C13Src): __check_window_to_length translated from the live source raises exactly when the window exceeds the length. Source-text tie (C13Val): the per-character decision of validateSequence's loop (append / drop / raise; counters, the warn-once flag and messages recognised as unable to influence it), translated from the live source on every run, is one unfolding of the model's validateChars for every character and every rest of the input.",
     "C16": " Source-text tie (C16Src): the per-site decision of setPhosPhoSites' loop (index shift, range test, S/T/Y test, duplicate test, what is appended), translated from the live source on every run, IS the model's Obj.setSite for every object and every integer site (setSite_eq, lifted to whole calls by setPhos_eq); whatever the source appends is an in-range, unlisted S/T/Y index (appended_ok); the letter lists of setPhosPhoSites and get_STY_residues are exactly S/T/Y in any order (letters_eq).",
     "C18": "",
 }
